@@ -44,7 +44,7 @@ Theorem C01_update_effect :
     t_update lm lu c t k e cond names vals = (t', WOk (Some it') f) ->
     exists key, get_key (t_ks t) (t_defs t) k = inr key /\ t_data t' = insert key it' (t_data t) /\
                 exists f', interp_update lu c (t_name t) e
-                              (match lookup key (t_data t) with Some i => i | None => k end) vals names = Ok (it', f').
+                              (match lookup key (t_data t) with Some i => i | None => Key.key_item (t_ks t) k end) vals names = Ok (it', f').
 Proof. exact update_effect. Qed.
 
 (* Delete removes exactly the key and returns the old item; on an absent key it succeeds without effect *)
